@@ -26,7 +26,7 @@ from py_gql.execution.runtime import threadpool as _tp
 from py_gql.schema import EnumType, ScalarType
 
 from .kernel import Hang, Kernel, StepCap
-from .loop import SimLoop
+from .loop import SimLoop, sim_pause
 from .model import error_extensions, error_message
 from .pool import SimExecutor, SimFuture
 from .workload import ENUM_VALUES, is_list
@@ -120,7 +120,7 @@ class ReqCtx:
     """Per-request context handed to resolvers through ``context=``."""
 
     __slots__ = ("world", "faults", "kernel", "mode", "loop", "mutseq",
-                 "req_id", "stats")
+                 "req_id", "stats", "pausable")
 
     def __init__(self, world, kernel, mode, loop=None, req_id=0):
         self.world = world
@@ -131,6 +131,7 @@ class ReqCtx:
         self.mutseq = 0
         self.req_id = req_id
         self.stats = {}
+        self.pausable = bool(loop is not None and loop.threaded_jobs)
 
     def log(self, kind, path=None, payload=None):
         self.kernel.log.add(kind, path, payload)
@@ -244,6 +245,10 @@ def make_resolvers(spec, tname, fname):
 
     def sync(root, ctx, info, **kwargs):
         tok = _start(tname, fname, root, ctx, info)
+        if ctx.pausable and ctx.kernel.stream.below(2, "job-pause"):
+            # inside a threaded executor job: stay "in the resolver" while
+            # other work (other jobs included) proceeds
+            sim_pause()
         v = _finish(tname, fname, root, ctx, kwargs, tok)
         if beh == "gen" and v is not None:
             ctx.count("gen_value")
@@ -573,6 +578,10 @@ def run_config(config, bundle, request, world, stream, policy=None,
     loop = None
     if mode == "asyncio":
         loop = SimLoop(kernel)
+        if config == "asyncio-thread":
+            # a third of the runs execute the offloaded resolvers in real,
+            # pausable threads so that their bodies overlap
+            loop.threaded_jobs = stream.below(3, "threaded-jobs") == 2
     ctx = ReqCtx(world, kernel, mode, loop=loop)
     out.ctx = ctx
     kw["context"] = ctx
@@ -721,6 +730,7 @@ def _settle_and_close(loop, kernel):
         pass
     info["unhandled"] = len(loop.unhandled)
     info["executor_jobs"] = loop.executor_jobs
+    info["overlapping_jobs"] = loop.overlapping_jobs
     loop.close()
     return info
 
